@@ -66,6 +66,8 @@ Laws == done =>
   /\ MaxDepth(Out) = Depth(doc)
   /\ IsContainer(doc) => ParseJson(SubSeq(Out, 1, Len(Out) - 1)) = doc
   /\ ~IsContainer(doc) => Out = <<[t |-> "atop", n |-> <<>>], Newline>>
+  \* the same round trip for the tree the deviation produces (null in place of every empty array)
+  /\ LET d == NullEmptyArrays(doc) IN IsContainer(d) => ParseJson(Pretty(EmptyHeap, d)) = d
   /\ Count(RuleOut, LAMBDA tk : tk = Newline) = (IF doc.t = "arr" THEN Len(doc.s) ELSE 1)
   /\ doc.t = "arr" => SplitToks(RuleOut, Newline) = [j \in 1..(Len(doc.s) + 1) |-> IF j <= Len(doc.s) THEN Pretty(EmptyHeap, doc.s[j]) ELSE <<>>]
 
